@@ -22,7 +22,8 @@ pub enum HOp {
 const METRICS: [DistanceMetric; 4] = [DistanceMetric::Euclidean, DistanceMetric::Cosine, DistanceMetric::DotProduct, DistanceMetric::Manhattan];
 
 pub fn vec_pool() -> Vec<Vec<f32>> {
-    vec![vec![1.0, 0.0], vec![0.0, 2.0], vec![-1.0, -1.0], vec![0.0, 0.0], vec![1e-12, 0.0]]
+    // index 3 equals the vector four ids get from fixed batch #0 (re-insert of an identical vector)
+    vec![vec![1.0, 0.0], vec![0.0, 2.0], vec![-1.0, -1.0], vec![1.0, 1.0], vec![0.0, 0.0], vec![1e-12, 0.0]]
 }
 /// fixed batches: #0 five points (four equal) that separate L1 from L2 order for query (-1,-1); #1 duplicates of one vector
 pub fn batches() -> Vec<Vec<(usize, Vec<f32>)>> {
@@ -284,7 +285,7 @@ fn check_state(s: &Subject, model: &Model, metric: DistanceMetric) -> Vec<(Strin
 fn alphabet(prop: &str, quick: bool) -> Vec<HOp> {
     let mut a = vec![];
     let ids: &[usize] = if quick { &[1, 2] } else { &[1, 2, 3] };
-    let vecs: Vec<usize> = if quick { vec![0, 1, 2] } else { (0..vec_pool().len()).collect() };
+    let vecs: Vec<usize> = if quick { vec![0, 1, 2, 3] } else { (0..vec_pool().len()).collect() };
     for &id in ids {
         for &v in &vecs {
             a.push(HOp::Ins(id, v));
@@ -391,7 +392,7 @@ pub fn run(args: &Args) -> i32 {
     let alpha = alphabet(&prop, run.quick());
     let depth = if run.quick() { 3 } else { 4 };
     if prop == "C24" {
-        run.set_rule("all histories (shortlex) up to the depth bound over {insert id v (ids 1..2/3 x pool of 2-d vectors incl. zero and 1e-12 norm), delete id (incl. never-inserted id), rebuild(live), insert_batch of two fixed sets (five points with four duplicates; two duplicates)} on a real HnswIndex per metric (euclidean, cosine, dot, manhattan); after the last step of every history: search for 5 queries (incl. near-zero norm) x k x ef in {1,2,default}: <=k results, distinct ids, all live in the reference map, distances non-decreasing and equal to the metric value computed in f64 from the latest vectors; when live <= ef: exactly min(k,live) results whose ranking distances equal the k smallest (ties free). Every prefix is itself an enumerated history, so every reachable state within the bound is checked. non-trivial = histories ending with a non-empty live set");
+        run.set_rule("all histories (shortlex) up to the depth bound, from TWO start states (empty index; the five-point index after insert_batch #0), over {insert id v (ids 1..2/3 x pool of 2-d vectors incl. zero and 1e-12 norm), delete id (incl. never-inserted id), rebuild(live), insert_batch of two fixed sets (five points with four duplicates; two duplicates)} on a real HnswIndex per metric (euclidean, cosine, dot, manhattan); after the last step of every history: search for 5 queries (incl. near-zero norm) x k x ef in {1,2,default}: <=k results, distinct ids, all live in the reference map, distances non-decreasing and equal to the metric value computed in f64 from the latest vectors; when live <= ef: exactly min(k,live) results whose ranking distances equal the k smallest (ties free). Every prefix is itself an enumerated history, so every reachable state within the bound is checked. non-trivial = histories ending with a non-empty live set");
     } else {
         run.set_rule("C24's alphabet plus save+load (HnswIndex) and IndexManager save_indexes+load_indexes at every position; after the last step of every history: an exhaustive search sees exactly the live identifiers with distances of their latest vectors, len()-tombstone_count() = live count, metric/config unchanged (also across persistence), dimension = 2 while vectors are live. non-trivial = histories ending with a non-empty live set");
     }
@@ -403,21 +404,29 @@ pub fn run(args: &Args) -> i32 {
     let mut completed = 0;
     for len in 1..=depth {
         let nseq = alpha.len().pow(len as u32);
-        let total = nseq * METRICS.len();
+        let total = nseq * METRICS.len() * 2;
         let done = run.par_for(total, threads(), |ix, l| {
             let mi = ix % METRICS.len();
-            let mut idx = ix / METRICS.len();
+            let root = (ix / METRICS.len()) % 2;
+            let mut idx = ix / METRICS.len() / 2;
             let mut h = vec![alpha[0]; len];
             for p in (0..len).rev() {
                 h[p] = alpha[idx % alpha.len()];
                 idx /= alpha.len();
+            }
+            // second root: the five-point index (start from a non-initial state)
+            if root == 1 {
+                h.insert(0, HOp::Batch(0));
             }
             l.eval();
             let r = catch_unwind(AssertUnwindSafe(|| {
                 let (mut v, sizes, builds) = run_history(&prop, METRICS[mi], &h, run.quick(), &menu, None);
                 let mut cases: Vec<(Dev, Vec<(String, String)>)> = vec![(None, std::mem::take(&mut v))];
                 // one deviation from the default environment answer: some graph build gets an upper-layer node
-                for r in 0..builds {
+                // every graph build starts from scratch, so only the LAST build of a history shapes the graph that
+                // the final observation sees (earlier builds are final builds of the history's prefixes, which are
+                // enumerated as histories of their own)
+                for r in builds.saturating_sub(1)..builds {
                     for j in 0..menu.special.len() {
                         let (vd, _, _) = run_history(&prop, METRICS[mi], &h, run.quick(), &menu, Some((r, j)));
                         l.count("executions_with_one_level_draw_deviation", 1);
